@@ -12,7 +12,7 @@ class CallsMixin:
 
     def e_Call(self, node):
         # spec helpers that need unevaluated arguments
-        if isinstance(node.func, ast.Name) and node.func.id in ('old', 'forall', 'exists', 'unchanged') \
+        if isinstance(node.func, ast.Name) and node.func.id in ('old', 'forall', 'exists', 'unchanged', 'fun') \
                 and node.func.id not in self.env:
             return getattr(self, 'sp_' + node.func.id)(node)
         if isinstance(node.func, ast.Name) and node.func.id == 'super':
@@ -229,7 +229,41 @@ class CallsMixin:
     def b_set(self, args, kwargs, node):
         if not args:
             return PyObj('emptyset')
+        v = args[0]
+        if isinstance(v, V) and isinstance(v.kind, K.Set):
+            return v
+        if isinstance(v, PyObj) and v.tag == 'genexp':
+            return self.subset_comprehension(v.node)
         raise Unsupported('set(x)')
+
+    def subset_comprehension(self, ge):
+        """set(x for x in S if pred(x)) over a set S: the subset of S satisfying pred."""
+        if len(ge.generators) != 1:
+            raise Unsupported('set(genexp) with several generators')
+        g = ge.generators[0]
+        if not (isinstance(ge.elt, ast.Name) and isinstance(g.target, ast.Name) and ge.elt.id == g.target.id):
+            raise Unsupported('set(genexp) whose element is not the loop variable')
+        src = self.eval(g.iter)
+        if not (isinstance(src, V) and isinstance(src.kind, K.Set)):
+            raise Unsupported('set(genexp) over %r' % (src,))
+        xs = self.p.fresh_value(src.kind.elem, 'sub!x')
+        saved_env = dict(self.env)
+        saved_spec, self.spec = self.spec, True
+        try:
+            self.env[g.target.id] = xs
+            pred = z3.And(*[self.truth(self.eval(c)) for c in g.ifs]) if g.ifs else z3.BoolVal(True)
+        finally:
+            self.spec = saved_spec
+            self.env = saved_env
+        arr = z3.BoolVal(True)
+        body = z3.And(K.nsel(src.terms[1], xs.terms), pred)
+        for b in reversed(xs.terms):
+            body = z3.Lambda([b], body)
+        size = self.p.fresh('sub!size', z3.IntSort())
+        self.p.assume(z3.And(0 <= size, size <= src.terms[0]))
+        out = V(src.kind, [size, body])
+        self.assume_valid(out)
+        return out
 
     def b_dict(self, args, kwargs, node):
         if not args and not kwargs:
@@ -294,7 +328,103 @@ class CallsMixin:
         raise Unsupported('reversed')
 
     def b_sorted(self, args, kwargs, node):
-        raise Unsupported('sorted (needs a stub)')
+        """sorted(set-or-list, key=lambda, reverse=const): a fresh list that is a duplicate-free enumeration of a
+        set (or a permutation of a list), ordered by the key; the position function is kept for ghost code."""
+        src = args[0]
+        if isinstance(src, PyObj) and src.tag == 'emptylist':
+            return src
+        if isinstance(src, PyObj):
+            raise Unsupported('sorted(%r)' % (src,))
+        key = kwargs.get('key')
+        rev = kwargs.get('reverse', K.vbool(False))
+        revc = simp(rev.t)
+        if not (z3.is_true(revc) or z3.is_false(revc)):
+            raise Unsupported('sorted with symbolic reverse')
+        if isinstance(src.kind, K.Set):
+            out = self.set_to_seq(src)
+        elif isinstance(src.kind, K.Seq):
+            out = self.permutation_of(src)
+        else:
+            raise Unsupported('sorted(%r)' % (src.kind,))
+        n = K.seq_len(out)
+        if key is not None:
+            i, j = self.p.fresh('srt!i', z3.IntSort()), self.p.fresh('srt!j', z3.IntSort())
+            saved_spec, self.spec = self.spec, True
+            try:
+                ki = self.as_int(self.call_lambda(key, [K.seq_get(out, i)]))
+                kj = self.as_int(self.call_lambda(key, [K.seq_get(out, j)]))
+            finally:
+                self.spec = saved_spec
+            order = (ki >= kj) if z3.is_true(revc) else (ki <= kj)
+            self.p.assume(z3.ForAll([i, j], z3.Implies(z3.And(0 <= i, i < j, j < n), order)))
+        elif out.kind.elem.nleaves() == 1 and isinstance(out.kind.elem, K._Int):
+            i, j = self.p.fresh('srt!i', z3.IntSort()), self.p.fresh('srt!j', z3.IntSort())
+            a = out.terms[1]
+            order = (z3.Select(a, i) >= z3.Select(a, j)) if z3.is_true(revc) else (z3.Select(a, i) <= z3.Select(a, j))
+            self.p.assume(z3.ForAll([i, j], z3.Implies(z3.And(0 <= i, i < j, j < n), order)))
+        else:
+            raise Unsupported('sorted without key on %r' % (out.kind.elem,))
+        self.p.last_sorted = out
+        return out
+
+    def permutation_of(self, src):
+        out = self.p.fresh_value(src.kind, 'perm')
+        n = K.seq_len(src)
+        p_, q_ = (self.p.fresh('perm!p', z3.ArraySort(z3.IntSort(), z3.IntSort())),
+                  self.p.fresh('perm!q', z3.ArraySort(z3.IntSort(), z3.IntSort())))
+        i = self.p.fresh('perm!i', z3.IntSort())
+        self.p.assume(K.seq_len(out) == n)
+        self.p.assume(K.forall([i], z3.Implies(z3.And(0 <= i, i < n), z3.And(
+            0 <= z3.Select(p_, i), z3.Select(p_, i) < n, z3.Select(q_, z3.Select(p_, i)) == i,
+            0 <= z3.Select(q_, i), z3.Select(q_, i) < n, z3.Select(p_, z3.Select(q_, i)) == i,
+            *[z3.Select(o, i) == z3.Select(a, z3.Select(p_, i)) for o, a in zip(out.terms[1:], src.terms[1:])])),
+            patterns=[z3.Select(p_, i), z3.Select(q_, i), z3.Select(out.terms[1], i), z3.Select(src.terms[1], i)]))
+        self.p.seq_pos[out.terms[1].get_id()] = ('perm', p_, q_)
+        return out
+
+    def b_index_in(self, args, kwargs, node):
+        """index_in(seq, x): position of x in a duplicate-free enumeration produced by sorted(set)/set iteration."""
+        seq, x = args
+        ent = self.p.seq_pos.get(seq.terms[1].get_id())
+        if ent is None or ent[0] != 'setpos':
+            raise Unsupported('index_in on a sequence without a registered position function')
+        return K.vint(K.nsel(ent[1], K.coerce(x, seq.kind.elem).terms))
+
+    def b_last_sorted(self, args, kwargs, node):
+        return self.p.last_sorted
+
+    def b_fun(self, args, kwargs, node):
+        raise Unsupported('fun() needs unevaluated arguments')
+
+    def sp_fun(self, node):
+        """fun(K1, ..., Kn, lambda x1..xn: body): the ghost function as a z3 lambda (array)."""
+        *dom_nodes, lam = node.args
+        names = [a.arg for a in lam.args.args]
+        saved_spec, self.spec = self.spec, True
+        saved_env = self.env
+        self.env = dict(self.env)
+        try:
+            bound, kinds = [], []
+            for nm, dn in zip(names, dom_nodes):
+                dom = self.eval(dn)
+                if not (isinstance(dom, PyObj) and dom.tag == 'kind'):
+                    raise Unsupported('fun() domain must be a declared kind')
+                v = self.p.fresh_value(dom.kind, 'lam!' + nm)
+                self.env[nm] = v
+                bound += v.terms
+                kinds.append(dom.kind)
+            body = self.eval(lam.body)
+            key = kinds[0] if len(kinds) == 1 else K.Tuple(*kinds)
+            terms = []
+            for t in body.terms:
+                arr = t
+                for b in reversed(bound):
+                    arr = z3.Lambda([b], arr)
+                terms.append(arr)
+            return V(K.Fun(key, body.kind), terms)
+        finally:
+            self.env = saved_env
+            self.spec = saved_spec
 
     def b_int(self, args, kwargs, node):
         return K.vint(self.as_int(args[0]))
@@ -617,8 +747,8 @@ class CallsMixin:
             return K.empty_seq(kind.elem)
         if pyobj.tag == 'emptydict' and isinstance(kind, K.Map):
             return K.empty_map(kind.key, kind.val)
-        if pyobj.tag == 'emptyset' and isinstance(kind, K.Set):
-            return K.empty_set(kind.elem)
+        if pyobj.tag in ('emptyset', 'emptylist') and isinstance(kind, K.Set):
+            return K.empty_set(kind.elem)       # e.g. a set-valued field reset with []
         if isinstance(kind, K.Opt):
             return K.opt_some(self.empty_of(kind.inner, pyobj))
         raise Unsupported('empty %s for %r' % (pyobj.tag, kind))
@@ -629,7 +759,28 @@ class CallsMixin:
         self.p.alloc = r + 1
         self.p.assume(self.p.ctx.dtype(r) == self.p.ctx.class_id(cls))
         self.p.new_refs.append((r, cls))
+        self.freshness_axioms(r)
         return V(K.Ref(cls), [r])
+
+    def freshness_axioms(self, r):
+        """A newly allocated reference occurs nowhere in the heap (the heap only holds allocated refs)."""
+        o = self.p.fresh('fr!o', z3.IntSort())
+        for cls, d in self.w.classes.items():
+            for f, kind in d['fields'].items():
+                key = '%s.%s' % (cls, f)
+                k = kind.inner if isinstance(kind, K.Opt) else kind
+                off = 1 if isinstance(kind, K.Opt) else 0
+                arrs = self.heap_arrays(key, kind)
+                if isinstance(k, K.Ref):
+                    self.p.assume(z3.ForAll([o], z3.Select(arrs[off], o) != r))
+                elif isinstance(k, K.Set) and isinstance(k.elem, K.Ref):
+                    self.p.assume(z3.ForAll([o], z3.Not(z3.Select(z3.Select(arrs[off + 1], o), r))))
+                elif isinstance(k, K.Map) and isinstance(k.val, K.Ref):
+                    x = self.p.fresh('fr!k', k.key.leaf_sorts()[0])
+                    self.p.assume(z3.ForAll([o, x], z3.Select(z3.Select(arrs[off + 5], o), x) != r))
+                elif isinstance(k, K.Seq) and isinstance(k.elem, K.Ref):
+                    i = self.p.fresh('fr!i', z3.IntSort())
+                    self.p.assume(z3.ForAll([o, i], z3.Select(z3.Select(arrs[off + 1], o), i) != r))
 
     def instantiate(self, cls, args, kwargs, node):
         ref = self.alloc_ref(cls)
@@ -875,6 +1026,7 @@ class CallsMixin:
         self.p.heap['%s.%s' % (owner, f)] = [
             self.p.fresh('H!%s!%d' % (key, i), z3.ArraySort(z3.IntSort(), s))
             for i, s in enumerate(kind.leaf_sorts())]
+        self.assume_field_valid(kind, self.p.heap['%s.%s' % (owner, f)])
 
     def eval_text(self, text):
         node = _parse_expr(text)
